@@ -172,6 +172,13 @@ func genC08(c *Ctx) {
 	} {
 		try(s.LiveRouter, "livesim", "GET", u, "", nil)
 	}
+	// BaseURL directories that the MPD never offers (signed, out of range, not a number) with traffic patterns configured
+	for _, tr := range []string{"u20d10", "u20d10,d10u20", "d5,u5,s1u9"} {
+		for _, bu := range []string{"bu-1", "bu-2", "bu-17", "bu+1", "bu-0", "bu2", "bu3", "bu99", "bu9223372036854775807", "bu9223372036854775808", "bu-9223372036854775808", "bux", "bu", "bu1.5", "bu%201"} {
+			try(s.LiveRouter, "livesim", "GET", fmt.Sprintf("/livesim2/traffic_%s/testpic_2s/%s/V300/49.m4s?nowMS=100300", tr, bu), "", nil)
+			try(s.LiveRouter, "livesim", "GET", fmt.Sprintf("/livesim2/traffic_%s/testpic_2s/%s/Manifest.mpd?nowMS=100300", tr, bu), "", nil)
+		}
+	}
 	// parameters that move the instant or the stream's time span x parameters that switch a feature on x kinds of request
 	shifters := []string{"timeoffset_-200", "timeoffset_-99.5", "timeoffset_1000", "start_101", "start_100", "startrel_10", "startrel_-10", "stop_50", "stop_0", "stoprel_-1000", "stoprel_0",
 		"start_-10", "timeoffset_-100.3", "start_100/timeoffset_-0.5"}
